@@ -521,13 +521,14 @@ def discharge(obls, timeout_s=20, jobs=16, all_backends=False, keep_dir=None, re
             verdicts[i] = Verdict(obls[i].name, obls[i].kind, st, "z3-5.1(ground)", dt)
 
         # ---- proof obligations
-        def prove_phase(todo, backends, text_of):
+        def prove_phase(todo, backends, text_of, tmo=None):
+            tmo = timeout_s if tmo is None else tmo
             for bname, fn in backends:
                 cur = [i for i in todo if verdicts[i] is None or (all_backends and verdicts[i].status == "discharged"
                                                                   and bname not in agree[i])]
                 if not cur:
                     continue
-                for i, r, out, dt in run_phase(cur, fn, bname, text_of, timeout_s):
+                for i, r, out, dt in run_phase(cur, fn, bname, text_of, tmo):
                     detail[i].append(f"{bname}:{r.split(':')[0]}")
                     t_used[i] += dt
                     if r == "unsat":
@@ -553,21 +554,54 @@ def discharge(obls, timeout_s=20, jobs=16, all_backends=False, keep_dir=None, re
 
         todo = [i for i in range(n) if verdicts[i] is None]
         raw_texts = {}
-        # phase A: z3 5.1 on the simplified (beta-reduced) query
-        prove_phase(todo, [("z3-5.1", z3new)], lambda i: texts[i])
+
+        def race(cur, entrants, tmo):
+            """every (obligation, formulation/back end) pair runs concurrently; the first `unsat` discharges, a `sat` on a complete query refutes"""
+            jobs_ = [(i, bname, fn, text_of) for i in cur for bname, fn, text_of in entrants if text_of(i) is not None]
+
+            def work(job):
+                i, bname, fn, text_of = job
+                if verdicts[i] is not None and not all_backends:
+                    return i, bname, "skipped", "", 0.0
+                r, out, dt = fn(text_of(i), tmo, workdir, _tag(obls[i].name) + f".{i}.{_tag(bname)}")
+                return i, bname, r, out, dt
+            with ThreadPoolExecutor(max_workers=jobs) as pool:
+                for i, bname, r, out, dt in pool.map(work, jobs_):
+                    if r == "skipped":
+                        continue
+                    detail[i].append(f"{bname}:{r.split(':')[0]}")
+                    t_used[i] = max(t_used[i], dt)
+                    if r == "unsat":
+                        agree[i].append(bname)
+                        if verdicts[i] is None:
+                            verdicts[i] = Verdict(obls[i].name, obls[i].kind, "discharged", bname, dt)
+                    elif r == "sat" and verdicts[i] is None and "inst" not in bname:
+                        verdicts[i] = Verdict(obls[i].name, obls[i].kind, "refuted", bname, dt, model=out)
+
+        # phase Q: z3 5.1 with a short budget, first on the simplified (beta-reduced) query, then on the text as generated - nearly every
+        # obligation is decided here within a fraction of a second
+        quick = min(5, timeout_s)
+        prove_phase(todo, [("z3-5.1", z3new)], lambda i: texts[i], quick)
         skip_siblings()
-        # phase B: everything that is left, in other formulations and on the other back ends - a true obligation must not
-        # depend on one solver's heuristics (verdicts must not flip under load)
         left = [i for i in todo if verdicts[i] is None]
+        chain_texts = {}
         for i in left:
             try:
                 raw_texts[i] = to_smt2(list(obls[i].hyps) + [z3.Not(obls[i].goal)])
+                if getattr(obls[i], "extra", None):
+                    # second formulation: earlier conjuncts of the same invariant / postcondition list as additional hypotheses
+                    chain_texts[i] = to_smt2([z3.simplify(h) for h in list(obls[i].hyps) + list(obls[i].extra)] + [z3.simplify(z3.Not(obls[i].goal))])
             except Exception:
                 pass
-        prove_phase([i for i in left if i in raw_texts], [("z3-5.1(raw)", z3new)], lambda i: raw_texts[i])
+        prove_phase([i for i in left if i in raw_texts], [("z3-5.1(raw)", z3new)], lambda i: raw_texts[i], quick)
+        prove_phase([i for i in left if i in chain_texts], [("z3-5.1(chained)", z3new)], lambda i: chain_texts[i], quick)
         skip_siblings()
-        left = [i for i in left if verdicts[i] is None]
-        prove_phase(left, [("cvc5", cvc5), ("z3-4.8", z3old)], lambda i: texts[i])
+        # phase R: what is left (or everything, for second opinions) on all formulations and back ends at once with the full budget - a true
+        # obligation must not depend on one solver's heuristics, and the wall time is that of one budget, not of their sum
+        left = list(todo) if all_backends else [i for i in todo if verdicts[i] is None]
+        race(left, [("z3-5.1", z3new, lambda i: texts[i]), ("z3-5.1(raw)", z3new, lambda i: raw_texts.get(i)),
+                    ("z3-5.1(chained)", z3new, lambda i: chain_texts.get(i)), ("cvc5(chained)", cvc5, lambda i: chain_texts.get(i)),
+                    ("cvc5", cvc5, lambda i: texts[i]), ("z3-4.8", z3old, lambda i: texts[i])], timeout_s)
         skip_siblings()
         # phase C: goal-directed ground instances added (proving from a subset of instances is sound)
         left = [i for i in todo if verdicts[i] is None]
@@ -578,7 +612,7 @@ def discharge(obls, timeout_s=20, jobs=16, all_backends=False, keep_dir=None, re
                 inst_text[i] = to_smt2([z3.simplify(h) for h in obls[i].hyps] + ground)
             except Exception as ex:
                 detail[i].append(f"instantiation-error:{ex!r}"[:120])
-        prove_phase([i for i in left if i in inst_text], [("z3-5.1+inst", z3new), ("cvc5+inst", cvc5)], lambda i: inst_text[i])
+        race([i for i in left if i in inst_text], [("z3-5.1+inst", z3new, lambda i: inst_text.get(i)), ("cvc5+inst", cvc5, lambda i: inst_text.get(i))], timeout_s)
         # phase R: refuting mode for what no back end could prove.
         #   bound=4   : small-model search, integer-quantified hypotheses instantiated over the whole index domain, real axioms by
         #               pattern matching -> `sat` is reported as a refutation (with the model)
